@@ -195,23 +195,33 @@ func (x *Exec) verify(fn *ssa.Function, ct *Contract, rep *FuncReport) {
 	st := &State{heap: map[string]Term{}, cells: map[int]*Cell{}}
 	st.alloc = x.global("alloc@0", SInt)
 	st.assume(Ge(st.alloc, TOne))
-	fc := &FuncCtx{fn: fn, key: funcKey(fn), contract: ct, alloc0: st.alloc, allowed: map[string]bool{}}
+	fc := &FuncCtx{fn: fn, key: funcKey(fn), contract: ct, alloc0: st.alloc, allowed: map[string]bool{}, allowedAt: map[string][]string{}}
 	x.curFunc = fc
 	for _, a := range ct.Assigns {
 		a = x.prog.cs.expand(a)
-		if i := strings.Index(a, "@"); i >= 0 {
-			a = a[:i]
+		// `except <expr>`: the object <expr> (at entry) is not written although its leaf is in the frame
+		if i := strings.Index(a, " except "); i >= 0 {
+			fc.except = append(fc.except, frameExcept{item: strings.TrimSpace(a[:i]), expr: strings.TrimSpace(a[i+len(" except "):])})
+			a = strings.TrimSpace(a[:i])
 		}
-		fc.allowed[a] = true
+		if i := strings.Index(a, "@"); i >= 0 {
+			// restricted to one object (as it was at entry): checked per write in checkFrame
+			fc.allowedAt[a[:i]] = append(fc.allowedAt[a[:i]], a[i+1:])
+			continue
+		}
 		if strings.HasPrefix(a, "*") {
+			// the location a pointer parameter points to
 			for _, pv := range fn.Params {
 				if pv.Name() == a[1:] {
 					if pt, ok := pv.Type().Underlying().(*types.Pointer); ok {
-						fc.allowed["deref "+typeKey(pt.Elem())] = true
+						k := "deref " + typeKey(pt.Elem())
+						fc.allowedAt[k] = append(fc.allowedAt[k], a[1:])
 					}
 				}
 			}
+			continue
 		}
+		fc.allowed[a] = true
 	}
 	fr := x.newFrame(fn, nil)
 	fr.ctx = fc
